@@ -162,6 +162,11 @@ def build_probes(case):
         else:
             p = dict(FAMILY[idx])
         p['id_dtype'] = case['id_dtype']
+        if case['id_dtype'].startswith('mixed'):
+            # every probe stores its ids and times in another integer type (signed / unsigned)
+            r = int(case['id_dtype'][5:] or 0)
+            p['id_dtype'] = ['uint32', 'int32', 'int64'][(k + r) % 3]
+            p['time_dtype'] = ['uint64', 'int64', 'int32', 'uint32'][(k + r) % 4]
         p['amp_base'] = 1.0 + 16.0 * k
         probes.append(p)
     return probes
@@ -214,6 +219,9 @@ def explore(ctx):
                 cases.append({'tuple': [long_tie_probe(n, pa, 0), long_tie_probe(n, pb, 1)],
                               'id_dtype': 'int32', 'fill': ctx.seed})
     ctx.run_cases(run_case, cases, chunk=1, sweep='long-ties')
+    cases = [{'tuple': list(tup), 'id_dtype': 'mixed%d' % r, 'fill': ctx.seed}
+             for k in (2, 3) for tup in itertools.product(fam[:3], repeat=k) for r in range(4)]
+    ctx.run_cases(run_case, cases, sweep='mixed-dtypes')
     # many probes: more than ten directories (names that sort differently as text and as numbers)
     cases = [{'tuple': [fam[(j + r) % len(fam)] for j in range(k)], 'id_dtype': dt, 'fill': ctx.seed}
              for k, r, dt in ((11, 0, 'int32'), (12, 2, 'uint32'))]
